@@ -16,13 +16,14 @@ mod c06 {
     fn c06_retry_session_persists_default() {
         let policy = DefaultRetryPolicy::new();
         let ri = RoutingInfo::default();
-        let span = RequestSpan::new_query("q");
+        // a disabled tracing span (never touched by retry_session); all-zero bytes are `Span::none()` + counter 0
+        let span = std::mem::ManuallyDrop::new(unsafe { std::mem::zeroed::<RequestSpan>() });
         let mut ctx = ExecuteRequestContext {
             retry_policy: &policy,
             retry_session: None,
             history_data: None,
             routing_info: &ri,
-            request_span: &span,
+            request_span: &*span,
         };
         let err = RequestAttemptError::DbError(
             DbError::Unavailable { consistency: Consistency::Quorum, required: kani::any(), alive: kani::any() },
@@ -51,8 +52,9 @@ mod c06 {
     fn c06_canary_second_unavailable_retried() {
         let policy = DefaultRetryPolicy::new();
         let ri = RoutingInfo::default();
-        let span = RequestSpan::new_query("q");
-        let mut ctx = ExecuteRequestContext { retry_policy: &policy, retry_session: None, history_data: None, routing_info: &ri, request_span: &span };
+        // a disabled tracing span (never touched by retry_session); all-zero bytes are `Span::none()` + counter 0
+        let span = std::mem::ManuallyDrop::new(unsafe { std::mem::zeroed::<RequestSpan>() });
+        let mut ctx = ExecuteRequestContext { retry_policy: &policy, retry_session: None, history_data: None, routing_info: &ri, request_span: &*span };
         let err = RequestAttemptError::DbError(DbError::Unavailable { consistency: Consistency::Quorum, required: 2, alive: 1 }, String::new());
         let _ = ctx.retry_session().decide_should_retry(RequestInfo { error: &err, is_idempotent: false, consistency: Consistency::Quorum });
         let d2 = ctx.retry_session().decide_should_retry(RequestInfo { error: &err, is_idempotent: false, consistency: Consistency::Quorum });
